@@ -874,11 +874,27 @@ class History:
                 self.mm("rekey_collision", f"{op['op']} {old_sp!r} -> {new_sp!r} onto an initialised job: outcome {outcome}, expected DestinationExistsError", detail)
             if not fsutil.same(before, after):
                 self.mm("rekey_collision_disk", f"failed re-key {old_sp!r} -> {new_sp!r} changed the disk: {fsutil.fmt_diff(fsutil.diff(before, after))}", detail)
-            # the in-memory state point of this handle group is not defined after the failure
-            for g in self.live():
-                if g["group"] == h["group"]:
-                    g["stale"] = True
-                    g["broken"] = True
+            # a refused operation has no effect in the model: the handle (and its shallow copies) goes on describing
+            # the job it described before, and later operations through it start from there
+            if outcome == "DestinationExistsError":
+                self.cl.add("handle_used_after_refused_rekey")
+                for g in self.live():
+                    if g["group"] != h["group"] or g["stale"] or g.get("broken"):
+                        continue
+                    try:
+                        got, gid = oracle.plain(g["job"].statepoint()), g["job"].id
+                    except Exception as e:
+                        self.mm("refused_rekey_handle", f"after the refused {op['op']} {old_sp!r} -> {new_sp!r}: statepoint() of handle[{g['kind']}] raised {type(e).__name__}: {e}", detail)
+                        g["stale"] = g["broken"] = True
+                        continue
+                    if gid != old_id or oracle.canon(got) != oracle.canon(old_sp):
+                        self.mm("refused_rekey_handle", f"after the refused {op['op']} {old_sp!r} -> {new_sp!r}: handle[{g['kind']}] reports id {gid[:8]} with state point {got!r}; the job is still {old_sp!r} ({old_id[:8]})", detail)
+                        g["stale"] = g["broken"] = True
+            else:
+                for g in self.live():
+                    if g["group"] == h["group"]:
+                        g["stale"] = True
+                        g["broken"] = True
             return
         if outcome != "ok" and h.get("lockbroken") and outcome.startswith("KeyError") and SP_FILE in outcome:
             self.mm("lock_registry_keyerror", f"{op['op']} through an independent handle whose job was re-keyed by another handle raised {outcome}", dict(detail, lockbroken=True))
